@@ -365,11 +365,12 @@ func writeWakeSlicesShared(w *bufio.Writer, s *vt.Sched, tag string) int {
 			if x := get(ev.Owner); x != nil {
 				cand(x, idx, t, "kstatus "+ev.Val+" %s")
 			}
-		case si.Field == "concurrency" && ev.Kind == "store":
+		case si.Field == "concurrency" && (ev.Kind == "store" || ev.Kind == "swap"):
 			x := get(ev.Owner)
 			if x == nil {
 				continue
 			}
+			ev.Val = strings.Fields(ev.Val)[0] // a swap logs "new old"
 			if x.conc0 == "" {
 				x.conc0 = ev.Val
 				continue
